@@ -18,7 +18,7 @@ import time
 from concurrent.futures import TimeoutError as CfTimeoutError
 
 from vlib import harness
-from vlib.c04_tasks import Boom, task
+from vlib.c04_tasks import EXC, Boom, task
 
 ID = "C04"
 LEVEL = "exploration"
@@ -73,8 +73,10 @@ def gen_history(rng, with_timeout):
         c = dict(n=n, kind=kind)
         if kind == "task":
             c["fail_at"] = sorted(rng.sample(range(n), rng.randint(1, min(2, n))))
+            c["exc"] = rng.choice(["Boom", "Boom", "Boom", "BoomBase", "SystemExit", "StopIteration"])
         elif kind == "iter":
             c["iter_fail_at"] = rng.randrange(n)
+            c["exc"] = rng.choice(["Boom", "Boom", "BoomBase", "SystemExit"])
         elif kind == "never":
             c["hold"] = rng.randrange(n)
         calls.append(c)
@@ -193,8 +195,9 @@ def run_scripted(sid, ctx):
         if c["kind"] == "never":
             held.add(c["hold"])
             held_call[0] = be.call_no + 1
-        src = Src(n, lambda i: delayed(task)(i, tag, i in c.get("fail_at", ())), trace, widen=0,
-                  fail_at=c.get("iter_fail_at"), fail_exc=Boom("iter", tag, c.get("iter_fail_at")))
+        xc = EXC[c.get("exc", "Boom")]
+        src = Src(n, lambda i: delayed(task)(i, tag, c.get("exc", "Boom") if i in c.get("fail_at", ()) else False), trace, widen=0,
+                  fail_at=c.get("iter_fail_at"), fail_exc=xc("iter", tag, c.get("iter_fail_at")))
         if c["kind"] == "iterinit":
             src = RaisingIterable(Boom("iter", tag, -1))     # the input's __iter__ itself raises
         res = {}
@@ -250,14 +253,18 @@ def run_scripted(sid, ctx):
                     ctx.violation("object-left-running-after-failed-call", f"call {k} (ok, n={n}) after {summary[:-1]} raised RuntimeError: {e}; config {cfgdesc}", desc)
                     return "ok"
                 leak = "leftover-from-earlier-call" if (e is None and any(x[0] != tag for x in res.get("out", []))) or \
-                    (isinstance(e, Boom) and tag not in e.args) else "wrong-result"
+                    (type(e) in EXC.values() and e.args and tag not in e.args) else "wrong-result"
                 ctx.violation(f"ok-call:{leak}", f"call {k} (ok, n={n}) after {summary[:-1]} returned/raised {what}; config {cfgdesc}", desc)
         elif kind == "task":
             failed_before[0] = True
-            if not (isinstance(e, Boom) and len(e.args) == 2 and e.args[0] == tag and e.args[1] in c["fail_at"]):
+            ctx.count("task_failures:" + c.get("exc", "Boom"))
+            if not (type(e) is xc and len(e.args) == 2 and e.args[0] == tag and e.args[1] in c["fail_at"]):
                 what = f"raised {type(e).__name__}{getattr(e, 'args', '')}" if e is not None else f"returned {str(res.get('out'))[:150]}"
-                ctx.violation("task-failure:" + ("returned" if e is None else ("leftover-from-earlier-call" if isinstance(e, Boom) and tag not in e.args else "wrong-exception")),
-                              f"call {k} with failing tasks {c['fail_at']} of {n} {what}; config {cfgdesc}", desc)
+                if xc is StopIteration and isinstance(e, RuntimeError) and "generator raised StopIteration" in str(e):
+                    key = "task-failure:StopIteration-becomes-RuntimeError"
+                else:
+                    key = "task-failure:" + ("returned" if e is None else ("leftover-from-earlier-call" if type(e) in EXC.values() and e.args and tag not in e.args else "wrong-exception"))
+                ctx.violation(key, f"call {k} with tasks {c['fail_at']} of {n} raising {xc.__name__} {what}; config {cfgdesc}", desc)
         elif kind == "iterinit":
             failed_before[0] = True
             ctx.count("iterator_failures")
@@ -267,10 +274,11 @@ def run_scripted(sid, ctx):
         elif kind == "iter":
             failed_before[0] = True
             ctx.count("iterator_failures")
-            if not (isinstance(e, Boom) and e.args[:2] == ("iter", tag)):
+            ctx.count("iterator_failures:" + c.get("exc", "Boom"))
+            if not (type(e) is xc and e.args[:2] == ("iter", tag)):
                 what = f"raised {type(e).__name__}{getattr(e, 'args', '')}" if e is not None else f"returned {str(res.get('out'))[:150]}"
                 key = "iterator-failure:" + ("returned" if e is None else "wrong-exception")
-                if isinstance(e, Boom) and tag not in e.args:
+                if type(e) in EXC.values() and e.args and tag not in e.args:
                     key = "iterator-failure:leftover-from-earlier-call"
                 if e is None and pd == "all" and res.get("out") == []:
                     key = "iterator-failure:swallowed-in-first-slice-with-pre_dispatch-all"
@@ -337,9 +345,12 @@ def run_real(case, ctx):
     rng = harness.rng_for(ctx.seed, ID, "real", case["i"])
     backend = ["threading", "loky", "multiprocessing", "threading", "loky", "loky"][case["i"] % 6]
     J = rng.choice([2, 3])
+    if case["i"] % 6 == 3:
+        J = 1       # the calling thread runs the tasks itself (sequential code path)
     cfg = dict(backend=backend, J=J, b=rng.choice([1, 1, 2, "auto"]), pd=rng.choice(["2*n_jobs", 1, "all", "n_jobs"]),
                ra="list" if backend == "multiprocessing" else rng.choice(["list", "generator"]),
-               managed=rng.random() < 0.5, cycles=rng.choice([3, 5, 10]), seed=rng.randrange(1 << 30))
+               managed=rng.random() < 0.5, cycles=rng.choice([3, 5, 10]), seed=rng.randrange(1 << 30),
+               verbose=rng.choice([0, 0, 1, 11, 60]))     # progress reporting runs inside the same code paths as error handling
     hist = []
     for k in range(cfg["cycles"]):
         h = gen_history(rng, False)[:2]
@@ -389,18 +400,23 @@ def run_real(case, ctx):
                 prev_failed = False
             elif c["kind"] == "task":
                 prev_failed = True
-                if not (o.get("exc_type") == "Boom" and o.get("exc_args", [None])[0] == tag and o["exc_args"][1] in c["fail_at"]):
-                    ctx.violation("task-failure:" + ("returned" if "out" in o else "wrong-exception"),
+                if not (o.get("exc_type") == c.get("exc", "Boom") and o.get("exc_args", [None])[0] == tag and o["exc_args"][1] in c["fail_at"]):
+                    sk = c.get("exc") == "StopIteration" and o.get("exc_type") == "RuntimeError" and "generator raised StopIteration" in str(o.get("exc_args"))
+                    ctx.violation("task-failure:StopIteration-becomes-RuntimeError" if sk else "task-failure:" + ("returned" if "out" in o else "wrong-exception"),
                                   f"{backend} call {k} with failing tasks {c['fail_at']} gave {str(o)[:200]}", desc)
             else:
                 prev_failed = True
                 ctx.count("iterator_failures")
-                if not (o.get("exc_type") == "Boom" and o.get("exc_args", [None, None])[:2] == ["iter", tag]):
+                if not (o.get("exc_type") == c.get("exc", "Boom") and o.get("exc_args", [None, None])[:2] == ["iter", tag]):
                     key = "iterator-failure:" + ("returned" if "out" in o else "wrong-exception")
                     if "out" in o and cfg["pd"] == "all" and o["out"] == []:
                         key = "iterator-failure:swallowed-in-first-slice-with-pre_dispatch-all"
                     ctx.violation(key, f"{backend} call {k} whose input raises at step {c['iter_fail_at']} gave {str(o)[:200]}", desc)
-        ctx.sig((backend, J, str(cfg["b"]), cfg["pd"], cfg["ra"], cfg["managed"], [(c["kind"], c.get("fail_at"), c.get("iter_fail_at")) for c in hist]))
+        if cfg["verbose"]:
+            ctx.count("real_histories_with_progress_reporting")
+        if J == 1:
+            ctx.count("real_histories_on_the_sequential_path")
+        ctx.sig((backend, J, cfg["verbose"], str(cfg["b"]), cfg["pd"], cfg["ra"], cfg["managed"], [(c["kind"], c.get("fail_at"), c.get("iter_fail_at")) for c in hist]))
         g = out["growth"]
         ctx.maxi("max_real_thread_growth", g["threads"])
         ctx.maxi("max_real_child_growth", g["children"])
